@@ -7,7 +7,7 @@ open Atomman Atomman.C10
     arr   := <f|i|s> <rank> <dims…> <data…>
     unit  := <unit string | -> <fW> <fR>        (factor under the writing / reading working units; a blank
                                                  inside a unit expression is sent as `%`)
-    uc    <via> unit arr
+    uc    <via> unit arr [err <error data…>]       (with err: uc.model(value, unit, error=…), reply has eread)
     box   <via> unit <12 rationals: a b c origin>
     atoms <via> <natoms> <nprops> {<name> unit arr}* [sel <k> {<name> unit}*]   (selection = the prop_unit dict)
     sys   <via> unit(box) <12 rationals> <3 pbc> <nsym> {sym|-}* <nmass> {mass|-}* <natoms> <nprops> {<name> unit arr}*
@@ -272,6 +272,21 @@ def handleC10 (toks : List String) : String :=
       | some (a, []) =>
         let (fw, fr) := facTabs [] [(u.unit, u.fW, u.fR)]
         reply via (ucModel fw u.unit a) (valueUnit fr) jArr
+      | some (a, "err" :: re) =>
+        -- uc.model(value, unit, error=…): value_unit and error_unit of what was written
+        match parseRats? re with
+        | none => err "format"
+        | some e =>
+          let (fw, fr) := facTabs [] [(u.unit, u.fW, u.fR)]
+          let oa (x : Option (Arr Rat)) : String := match x with | none => "null" | some y => jArr y
+          match ucModelE fw u.unit a e with
+          | none => "{\"tree\":null,\"read\":null}"
+          | some t =>
+            match viaOf via t with
+            | none => err "format"
+            | some t' =>
+              "{\"tree\":" ++ jDM t ++ ",\"via\":" ++ jDM t' ++ ",\"read\":" ++ oa (valueUnit fr t')
+                ++ ",\"eread\":" ++ oa (errorUnit fr t') ++ "}"
       | _ => err "format"
     | none => err "format"
   | "box" :: via :: r =>
